@@ -1,20 +1,24 @@
 pub mod c01;
 pub mod c02;
+pub mod c03;
 pub mod c04;
 pub mod c11;
 pub mod c12;
 pub mod c13;
+pub mod c14;
 pub mod c15;
 pub mod c16;
 pub mod c17;
+pub mod c18;
 pub mod c19;
+pub mod c20;
 pub mod val;
 pub mod val_enum;
 
 use crate::core::Prop;
 
 pub fn all() -> Vec<Box<dyn Prop>> {
-    vec![Box::new(c01::C01), Box::new(c02::C02), Box::new(c04::C04),
+    vec![Box::new(c01::C01), Box::new(c02::C02), Box::new(c03::C03), Box::new(c04::C04),
         Box::new(val::ValProp { which: crate::valcheck::Which::C05 }),
         Box::new(val::ValProp { which: crate::valcheck::Which::C06 }),
         Box::new(val::ValProp { which: crate::valcheck::Which::C07 }),
@@ -24,10 +28,13 @@ pub fn all() -> Vec<Box<dyn Prop>> {
         Box::new(c11::C11),
         Box::new(c12::C12),
         Box::new(c13::C13),
+        Box::new(c14::C14),
         Box::new(c15::C15),
         Box::new(c16::C16),
         Box::new(c17::C17),
+        Box::new(c18::C18),
         Box::new(c19::C19),
+        Box::new(c20::C20),
     ]
 }
 
